@@ -3,6 +3,8 @@ SPECIFICATION Spec
 CONSTANTS
   ChSC <- Ch_RO
   ChCS <- Ch_RO
+  SeqBase = 0
+  MidBase = 0
   Budget = 1200
   Workload <- WL_2400
   MaxFlushS = 1
